@@ -2,7 +2,8 @@
 from pyvc.api import *
 
 PROP = 'C14'
-REPLAYERS = {q: 'replayers/heap_ops.py' for q in ('heap.Heap._absorb', 'heap.Heap._free', 'heap.Heap._malloc')}
+REPLAYERS = {q: 'replayers/heap_ops.py' for q in ('heap.Heap._absorb', 'heap.Heap._free', 'heap.Heap._malloc', 'heap.Heap.__init__',
+                                                   'heap.Heap._free_pending_blocks', 'heap.Heap.free', 'heap.Heap.malloc')}
 
 ASSUMPTIONS = [
     'bisect.bisect_left / bisect.insort have their documented contracts on a sorted list (assumed)',
@@ -15,10 +16,6 @@ OUT_OF_REACH = [
     'two threads both inside the locked region (excluded by the lock, whose correctness is assumed); reentrancy of free() from a '
     'GC finalizer (the try-lock / pending-list protocol; the seeded change C14-a swaps the Lock for an RLock): a property of '
     'interleavings, not of one call',
-    'the public wrappers malloc / free / _free_pending_blocks (lock, pending list, splitting the block returned by _malloc and '
-    'freeing its tail) are compositions of the three operations proved here and are NOT yet under contract: that the '
-    'invariant holds between public calls is not closed by this check; the replayer runs them (bounded: all sequences of up '
-    'to 5 operations + 3000 random ones)',
 ]
 TRUSTED = []
 
@@ -366,11 +363,54 @@ def build(w):
         requires=dict(inv, pending='allocated(%s) and len(%s) >= 0' % (PD, PD), pending_blocks_are_allocated=pending_wf),
         modifies=[S + '.*', E + '.*', L + '.*', LN + '.*', 'list<tup[ref[Arena],int,int]>.*', A + '.*'],
         loops={0: {'inv': dict(dict(geometry_inv(), **index_inv()), pending_blocks_are_allocated=pending_wf,
-                               pending='len(%s) >= 0' % PD),
+                               pending='len(%s) >= 0' % PD,
+                               blocks_that_were_not_pending_stay_allocated=Forall(AXY, 'implies(old(has(%s, (a, x, y))) and old(count(%s, (a, x, y))) == 0, has(%s, (a, x, y)) and count(%s, (a, x, y)) == 0)' % (A, PD, A, PD))),
                    'modifies': [S + '.*', E + '.*', L + '.*', LN + '.*', 'list<tup[ref[Arena],int,int]>.*', A + '.*']}},
-        ensures=dict(dict(geometry_inv(), **index_inv()), nothing_left_pending='len(%s) == 0' % PD),
+        ensures=dict(dict(geometry_inv(), **index_inv()), nothing_left_pending='len(%s) == 0' % PD,
+                     pending_blocks_are_allocated=pending_wf,
+                     blocks_that_were_not_pending_stay_allocated=Forall(AXY, 'implies(old(has(%s, (a, x, y))) and old(count(%s, (a, x, y))) == 0, has(%s, (a, x, y)) and count(%s, (a, x, y)) == 0)' % (A, PD, A, PD))),
     )
-    return [absorb, free_, malloc_, init, drain]
+    ALLMOD = [S + '.*', E + '.*', L + '.*', LN + '.*', 'list<tup[ref[Arena],int,int]>.*', A + '.*', 'self._lock.held']
+    pub_req = dict(inv, pending='allocated(%s) and len(%s) >= 0 and allocated(self._lock)' % (PD, PD),
+                   pending_blocks_are_allocated=pending_wf, lock_is_not_reentrant='not self._lock.reentrant')
+    full_inv = dict(dict(geometry_inv(), **index_inv()), pending_blocks_are_allocated=pending_wf)
+    free_pub = Contract(
+        'heap.Heap.free', prop=PROP, params={'self': H, 'block': BLK},
+        uses={'pending_blocks_are_allocated': ['pending_blocks_are_allocated', 'blocks_that_were_not_pending_stay_allocated']},
+        requires=dict(pub_req, block_is_live='has(%s, block) and count(%s, block) == 0' % (A, PD),
+                      same_process='self._lastpid == g.pid'),
+        modifies=ALLMOD,
+        ensures=dict(full_inv,
+                     deferred_when_the_lock_is_taken='implies(old(self._lock.held), count(%s, block) == 1 and '
+                                                     'len(%s) == old(len(%s)) + 1 and only_key_changed(%s) and only_key_changed(%s) '
+                                                     'and only_key_changed(%s) and self._lock.held)' % (PD, PD, PD, S, E, A),
+                     freed_when_the_lock_is_free='implies(not old(self._lock.held), not has(%s, block) and len(%s) == 0 and '
+                                                 'not self._lock.held)' % (A, PD)),
+    )
+    malloc_pub = Contract(
+        'heap.Heap.malloc', prop=PROP, params={'self': H, 'size': IntS},
+        inline=['heap.Heap._roundup'],
+        # (over the locals at exit: the block _malloc returned is [start, stop), the part kept is [start, new_stop))
+        local_ensures={'unused_tail_goes_back_to_the_free_set':
+                       'implies(final.new_stop < final.stop, has(%s, (final.arena, final.new_stop)) and '
+                       'get(%s, (final.arena, final.new_stop))[2] >= final.stop)' % (S, S)},
+        requires=dict(pub_req, size='0 <= size', heap_size='self._size >= 1', same_process='self._lastpid == g.pid',
+                      arenas='allocated(self._arenas)'),
+        modifies=ALLMOD + ['self._size', 'self._arenas.*', 'g.arenas_mapped'],
+        returns=BLK,
+        ensures=dict(full_inv,
+                     block_is_live_now='has(%s, result)' % A,
+                     at_least_as_large_as_requested='result[2] - result[1] >= size and result[2] - result[1] >= 8 and '
+                                                    'result[2] - result[1] < size + 8 + ite(size == 0, 1, 0)',
+                     aligned_and_inside_its_arena='allocated(result[0]) and 0 <= result[1] and result[1] % 8 == 0 and '
+                                                  'result[2] % 8 == 0 and result[2] <= result[0].size',
+                     disjoint_from_every_other_live_block=Forall(AXY,
+                         'implies(has(%s, (a, x, y)) and a == result[0] and (x != result[1] or y != result[2]), '
+                         'y <= result[1] or result[2] <= x)' % A),
+                     lock_released='not self._lock.held'),
+        raises={'AssertionError': {'size_out_of_range': 'size >= sys.maxsize'}},
+    )
+    return [absorb, free_, malloc_, init, drain, free_pub, malloc_pub]
 
 
 def ext_insort(ex, args, kw):
@@ -425,9 +465,17 @@ MANIFEST_ENTRY = {
             'neighbours -- exactly the adjacent ones, so that nothing is lost -- and touches no other free block; _malloc takes '
             'exactly one free block out of the free set or hands out a whole new arena, and returns a block that is large enough, aligned, inside its arena, no longer '
             'free, disjoint from every free and every allocated block, and maps a new arena only when no free extent is large '
-            'enough.',
-    'note': 'The public wrappers malloc / free / _free_pending_blocks (locking, the pending list, splitting off and re-freeing the '
-            'tail of the block _malloc returns) are not under contract: the inductive argument over public calls is not closed '
-            'by this check (the replayer exercises them, bounded).  bisect, Arena(length) and the lock are assumed contracts; '
-            'reentrancy from a GC finalizer (seeded change C14-a) is outside sequential contracts.',
+            'enough.  The public operations are proved over those contracts: __init__ establishes the invariant on an empty heap '
+            'with a free, non-reentrant lock; _free_pending_blocks (loop invariant) frees exactly the pending blocks; free() '
+            'defers the block to the pending list when the lock is taken and touches nothing else, otherwise drains the list and '
+            'frees the block; malloc() returns a live block of the requested size rounded up to 8 (at least 8), aligned, inside '
+            'its arena, disjoint from every other live block, frees the unused tail, and leaves the invariant and the lock '
+            'released.',
+    'note': 'bisect, Arena(length) and the lock are assumed contracts; one thread at a time inside the locked regions.  Reentrancy '
+            'of free() from a GC finalizer inside malloc()/free() of the same thread is covered only as far as a contract can: '
+            '__init__ must create a free, non-reentrant lock, and free() defers to the pending list whenever the lock is taken '
+            '(the seeded change C14-a, RLock for Lock, is refuted at __init__); what a finalizer would do in the middle of an '
+            'operation is an interleaving, outside sequential contracts.  The global statement "the arenas are always exactly '
+            'partitioned" is carried by the exactness clauses of each operation (nothing lost, nothing taken twice); the sum over '
+            'a whole history is the induction of DESIGN.md section 4.',
 }
